@@ -32,6 +32,7 @@ import QlibcModel.Props.C19
 import QlibcModel.Tree.FaultSpec
 import QlibcModel.Props.C11Seq
 import QlibcModel.Props.C11Map
+import QlibcModel.Props.C11Harr
 
 namespace Qlibc.Props.C11
 open Qlibc Qlibc.Tree Qlibc.Tree.T
